@@ -17,6 +17,7 @@ import HcipyVerif.Model.Coronagraph
   multi-scale algebra at Gaussian rationals: `ok OUTRE OUTIM M0RE M0IM M1RE M1IM …` (`msForward`, `msMasks`)
 * `mstele N D [m] F B L ([S] [w])*L [E]` → `ok nested=0|1 equal=0|1 [msForward exactLevels] [idealForward]`
 * `papply [E]` → `ok [perfectMat T T⁺ c E] pin=powerW pout=powerW`
+* `pmatrix` → `ok row;row;…` the matrix `perfectMatrix T T⁺ c` (`get_transformation_matrix_forward()`)
 -/
 namespace HcipyVerif.Driver.C09
 open HcipyVerif.Proto HcipyVerif.Coronagraph
@@ -192,6 +193,9 @@ def step (st : St) : List String → St × String
       let out := perfectMat st.pT st.pTinv st.pc E
       (st, s!"ok {showRatList (toList out)} pin={showRat (powerW st.pw E)} pout={showRat (powerW st.pw out)}")
     | none => (st, "bad-op")
+  | ["pmatrix"] =>
+    let M := perfectMatrix st.pT st.pTinv st.pc
+    (st, "ok " ++ showRatLists ((toList M).map fun r => toList r))
   | "msalg" :: n :: d :: sre :: sim :: ere :: eim :: l :: rest =>
     match parseNat? n, parseNat? d, parseRatList? ere, parseRatList? eim, parseNat? l with
     | some n, some d, some ere, some eim, some l =>
